@@ -18,7 +18,8 @@ opened*:
 * **which path** the new file is created at (`Gen.createPathIsArg`): a file created beside the named path
   receives the flushes, the named path does not (`detached`).
 
-`stepO` runs an event of `Pure/Flush.lean` under a configuration `Cfg` (lower bound, create-at-named-path). Under
+`stepO` runs an event of `Pure/Flush.lean` under a configuration `Cfg` (lower bound, create / open at the named
+path). Under
 the configuration read off the source (`Gen.cfg`) it is proved to coincide with `step` (`Lemmas/C17Open.lean`),
 so every theorem about `step` holds for the code as it is; under the other configurations it is proved to lose
 the flushed state.
@@ -60,10 +61,12 @@ structure Cfg where
   low : Libver
   /-- `h5py.h5f.create` is given the path the caller named -/
   createAtArg : Bool
+  /-- `h5py.h5f.open` is given the path the caller named -/
+  openAtArg : Bool
   deriving DecidableEq, Repr
 
 /-- the configuration of the source as it is -/
-def Gen.cfg : Cfg := ⟨faplLow Gen.faplCalls, Gen.createPathIsArg⟩
+def Gen.cfg : Cfg := ⟨faplLow Gen.faplCalls, Gen.createPathIsArg, Gen.openPathIsArg⟩
 
 structure OWorld where
   /-- disk / cache / pending of the *named* path (and of the handle, unless `detached`) -/
@@ -104,7 +107,10 @@ def openO (cfg : Cfg) (ow : OWorld) (m : Mode) : OWorld × Option Err :=
       else
         ({ ow with w := { settle ow.w with handle := some ⟨.overwrite, Store.empty⟩ }, detached := true }, none)
     | .openExisting fl _ =>
-      if ow.flag then (ow, some .runtimeError)     -- libhdf5: "file is already open for write"
+      if !cfg.openAtArg then
+        -- some other file is opened (its content is not the model's business): the named path is left alone
+        ({ ow with w := { settle ow.w with handle := some ⟨m, Store.empty⟩ }, detached := true }, none)
+      else if ow.flag then (ow, some .runtimeError)     -- libhdf5: "file is already open for write"
       else ({ ow with w := (openFile ow.w m).1, flag := ow.sb3 && decide (fl = .rdwr) }, none)
 
 def stepO (cfg : Cfg) (ow : OWorld) : Ev → OWorld × Option Err
